@@ -43,14 +43,20 @@ theorem posOf_append (pre mid : Bytes) (h : ∀ c ∈ mid, c ≠ 0x0a) : posOf (
     rw [← List.append_assoc, posOf_snoc, ih hs]
     simp [Pos.step, Pos.adv, hc]; omega
 
-/-- a token's recorded line and column are those of its offset in `s`; a text token's value is
-    the source text found there, byte for byte -/
+/-- the kinds of token whose value is their source text as it stands: literal text, identifiers,
+    keywords and numbers (a string's value is unescaped, a symbol's may have lost its `-`) -/
+def TokTyp.verbatim : TokTyp → Bool
+  | .html | .ident | .keyword | .num => true
+  | _ => false
+
+/-- a token's recorded line and column are those of its offset in `s`; the value of a text token, an
+    identifier, a keyword or a number is the source text found there, byte for byte -/
 def TokOK (s : Bytes) (t : Tok) : Prop :=
-  t.off ≤ s.length ∧ (t.line, t.col) = lineCol (s.take t.off) ∧ (t.typ = .html → t.val <+: s.drop t.off)
+  t.off ≤ s.length ∧ (t.line, t.col) = lineCol (s.take t.off) ∧ (t.typ.verbatim = true → t.val <+: s.drop t.off)
 
 theorem tokOK_at {s pre rest : Bytes} (h : s = pre ++ rest) (t : Tok)
     (hl : t.line = (posOf pre).line) (hc : t.col = (posOf pre).col) (ho : t.off = (posOf pre).off)
-    (hv : t.typ = .html → t.val <+: rest) : TokOK s t := by
+    (hv : t.typ.verbatim = true → t.val <+: rest) : TokOK s t := by
   subst h
   simp only [posOf] at hl hc ho
   refine ⟨by simp [ho], ?_, ?_⟩
@@ -161,9 +167,10 @@ theorem codeOK_continue {s pre used rest' cur : Bytes} {stuck' stuck : Prop} {r 
 theorem prefix_ok {s pre cur : Bytes} (hs : s = pre ++ cur) : ∃ pre', pre' <+: s ∧ ((posOf pre).line, (posOf pre).col) = lineCol pre' ∧ (posOf pre).off = pre'.length :=
   ⟨pre, by rw [hs]; exact List.prefix_append _ _, rfl, rfl⟩
 
-theorem tok_here {s pre cur : Bytes} (hs : s = pre ++ cur) (typ : TokTyp) (val : Bytes) (tr : Bool) (hne : typ ≠ .html) :
+theorem tok_here {s pre cur : Bytes} (hs : s = pre ++ cur) (typ : TokTyp) (val : Bytes) (tr : Bool)
+    (hv : typ.verbatim = true → val <+: cur) :
     TokOK s ⟨typ, val, (posOf pre).line, (posOf pre).col, tr, (posOf pre).off⟩ :=
-  tokOK_at hs _ rfl rfl rfl (fun h => absurd h hne)
+  tokOK_at hs _ rfl rfl rfl hv
 
 theorem codeOK_ok {s pre cur : Bytes} {stuck : Prop} {toks : List Tok} {rest : Bytes} {pos : Pos} (h1 : ∀ t ∈ toks, TokOK s t)
     (used : Bytes) (h2 : cur = used ++ rest) (h3 : pos = posOf (pre ++ used)) (h4 : used = [] → stuck) :
@@ -207,7 +214,7 @@ theorem stateCode_pos (T : LexTables) (hT : TagTablesOK T = true) (s : Bytes) :
           simp only [List.length_cons] at *; omega
         · rw [hs, hcur, List.append_assoc]
         · exact hacc'
-      have tokc := fun (typ : TokTyp) (val : Bytes) (tr : Bool) (hne : typ ≠ .html) => tok_here (cur := c :: t) hs typ val tr hne
+      have tokc := fun (typ : TokTyp) (val : Bytes) (tr : Bool) (hv : typ.verbatim = true → val <+: c :: t) => tok_here (cur := c :: t) hs typ val tr hv
       rw [stateCode.eq_def]
       simp only []
       by_cases hsp : mem T.space c = true
@@ -233,7 +240,9 @@ theorem stateCode_pos (T : LexTables) (hT : TagTablesOK T = true) (s : Bytes) :
             · exact takeWhile_mem_ne hidd _ x hx
           · intro t' ht'
             rcases List.mem_cons.1 ht' with rfl | h
-            · exact tokc _ _ _ (by first | decide | (split <;> decide))
+            · exact tokc _ _ _ (fun _ => ⟨_, by
+              simp only [List.cons_append, List.append_assoc, List.cons.injEq, true_and]
+              rw [List.takeWhile_append_dropWhile, List.takeWhile_append_dropWhile]⟩)
             · exact hacc _ h
         · rw [if_neg hidc]
           by_cases hdg : mem T.digits c = true
@@ -260,7 +269,9 @@ theorem stateCode_pos (T : LexTables) (hT : TagTablesOK T = true) (s : Bytes) :
                   · exact takeWhile_mem_ne hidd _ x hx
                 · intro t' ht'
                   rcases List.mem_cons.1 ht' with rfl | h
-                  · exact tokc _ _ _ (by first | decide | (split <;> decide))
+                  · exact tokc _ _ _ (fun _ => ⟨_, by
+                    simp only [List.cons_append, List.append_assoc, List.cons.injEq, true_and]
+                    rw [List.takeWhile_append_dropWhile, List.takeWhile_append_dropWhile, ← h0, List.takeWhile_append_dropWhile]⟩)
                   · exact hacc _ h
               · rw [if_neg hdd]
                 have := go (c :: t.takeWhile (mem T.digits)) (d :: t0') (⟨.num, c :: t.takeWhile (mem T.digits), (posOf pre).line, (posOf pre).col, false, (posOf pre).off⟩ :: acc) ?_ (by simp) ?_ ?_
@@ -274,13 +285,18 @@ theorem stateCode_pos (T : LexTables) (hT : TagTablesOK T = true) (s : Bytes) :
                   · exact takeWhile_mem_ne hdig _ x hx
                 · intro t' ht'
                   rcases List.mem_cons.1 ht' with rfl | h
-                  · exact tokc _ _ _ (by first | decide | (split <;> decide))
+                  · exact tokc _ _ _ (fun _ => ⟨d :: t0', by
+                    simp only [List.cons_append, List.cons.injEq, true_and]
+                    rw [← h0, List.takeWhile_append_dropWhile]⟩)
                   · exact hacc _ h
             · rename_i h0
               refine codeOK_ok ?_ (c :: t.takeWhile (mem T.digits)) ?_ ?_ (by simp)
               · intro t' ht'
                 rcases List.mem_cons.1 ht' with rfl | h
-                · exact tokc _ _ _ (by first | decide | (split <;> decide))
+                · exact tokc _ _ _ (fun _ => ⟨[], by
+                  simp only [List.append_nil, List.cons.injEq, true_and]
+                  conv => rhs; rw [hsplit, h0]
+                  simp⟩)
                 · exact hacc _ h
               · simp only [List.append_nil, List.cons.injEq, true_and]
                 conv => lhs; rw [hsplit, h0]
@@ -313,7 +329,7 @@ theorem stateCode_pos (T : LexTables) (hT : TagTablesOK T = true) (s : Bytes) :
                   · exact hc
                 · intro t' ht'
                   rcases List.mem_cons.1 ht' with rfl | h
-                  · exact tokc _ _ _ (by first | decide | (split <;> decide))
+                  · exact tokc _ _ _ (fun h => by simp [TokTyp.verbatim] at h)
                   · exact hacc _ h
               · exact codeOK_err hs _
             · rw [if_neg hqu]
@@ -333,7 +349,7 @@ theorem stateCode_pos (T : LexTables) (hT : TagTablesOK T = true) (s : Bytes) :
                 have htok : ∀ t' ∈ mkSym sym (posOf pre) :: acc, TokOK s t' := by
                   intro t' ht'
                   rcases List.mem_cons.1 ht' with rfl | h
-                  · unfold mkSym; split <;> exact tokc _ _ _ (by decide)
+                  · unfold mkSym; split <;> exact tokc _ _ _ (fun h => by simp [TokTyp.verbatim] at h)
                   · exact hacc _ h
                 by_cases hend : List.elem sym T.enders = true
                 · rw [if_pos hend]
